@@ -1,6 +1,6 @@
 (* C09 — Rules hold on every reported row and fire on their schedule. *)
 From Coq Require Import ZArith Reals List Bool Arith Sorted.
-From BS Require Import Base.Arith Model.Term Model.Propensity Model.Interface Model.Rules Model.Random Model.SSA Proofs.RuleProofs Proofs.RuleCount Proofs.RuleRows Model.Queue.
+From BS Require Import Base.Arith Model.Term Model.Propensity Model.Interface Model.Rules Model.Random Model.SSA Proofs.RuleProofs Proofs.RuleCount Proofs.RuleRows Proofs.VolumeRuleCount Proofs.LineageRuleCount Proofs.DelayRuleCount Proofs.DvRuleCount Model.Queue Model.Splitters Model.Lineage.
 Import ListNotations.
 
 (* Expression evaluation depends only on the species the expression reads (any arithmetic). *)
@@ -80,9 +80,99 @@ Theorem C09_volume_rows_are_rule_applied :
   vssa_simulate A fuel s vm V0 ts u pos = Done st -> Forall (rule_applied_v A s) (vs_rows st).
 Proof. exact @vssa_rows_rule_applied. Qed.
 
-(* The counting statements for the delay / volume / deterministic / lineage loops (the lineage single-cell loop's rows are
-   covered by Props/C19.v: C19_cell_rows_were_simulated) are decided by the stream
-   replay and the harness oracle (counter, ODE and scheduled rules); not mechanised (C09_partial). *)
+(* Whole-run counting for the delay-capable loop (reals; every network incl. rules and delay laws, any queue, stream and fuel;
+   strictly increasing grid not before t0; no firing time equal to a grid time): at the end
+   one row per requested time, and at EVERY iteration boundary the iterations that started with rule_step set number (rows reported
+   so far) + (1 if rule_step is cleared) -- one application per row, made before the row is recorded, however many reactions fire
+   and however many queued deliveries are made in between. *)
+Theorem C09_delay_dt_rules_once_per_row :
+  forall (s : sim R) pi2 gfuel (u : nat -> R) q ts fuel pos st, StronglySorted Rlt ts -> Forall (fun t => sm_t0 s <= t)%R ts ->
+  dssa_simulate ArithR pi2 fuel gfuel s q ts u pos = Done st ->
+  exists n, drun s pi2 gfuel u n (dinit s q ts pos) = Done st /\
+    (dnotie_run s pi2 gfuel u n (dinit s q ts pos) ->
+       length (ds_rows st) = length ts /\
+       forall m stm, (m <= n)%nat -> drun s pi2 gfuel u m (dinit s q ts pos) = Done stm ->
+         dapps s pi2 gfuel u m (dinit s q ts pos) = (length (ds_rows stm) + (if ds_rule_step stm then 0 else 1))%nat).
+Proof. exact delay_dt_rules_once_per_row. Qed.
+
+(* Whole-run counting for the volume-aware loop ("applied exactly once per elapsed time step however many reactions fire";
+   reals, 0 < dt, uniforms in (0,1], non-negative propensities; ANY volume model, network incl. rules, grid, fuel): the run is n
+   iterations of the loop from vinit (= the state vssa_simulate starts from), and when j whole steps of length dt have elapsed since t0 (t0 + j dt <= clock <= t0 + (j+1) dt = the
+   next volume step) the iterations that started with rule_step set -- exactly those in which every dt rule fires and every ODE
+   rule advances by rate x dt -- number j, plus one iff the pass for the step in progress has been made (rule_step cleared). *)
+Theorem C09_volume_dt_rules_once_per_step :
+  forall (s : sim R) (vm : volmodel) (u : nat -> R), (0 < sm_dt s)%R -> (forall n, 0 < u n <= 1)%R ->
+  (forall x p V t, 0 <= array_sum ArithR (stoch_props ArithR s StochVol x p V t))%R ->
+  forall ts V0 pos fuel st, vssa_simulate ArithR fuel s vm V0 ts u pos = Done st ->
+  exists n j : nat, vrun s vm u n (vinit s ts V0 pos) = Done st /\
+    (vs_next_q st = sm_t0 s + INR (S j) * sm_dt s)%R /\
+    (sm_t0 s + INR j * sm_dt s <= vs_time st <= sm_t0 s + INR (S j) * sm_dt s)%R /\
+    vapps s vm u n (vinit s ts V0 pos) = (j + (if vs_rule_step st then 0 else 1))%nat.
+Proof. exact volume_run_dt_rules. Qed.
+(* ... and at every iteration boundary of such a run *)
+Theorem C09_volume_dt_rules_every_boundary :
+  forall (s : sim R) (vm : volmodel) (u : nat -> R), (0 < sm_dt s)%R -> (forall n, 0 < u n <= 1)%R ->
+  (forall x p V t, 0 <= array_sum ArithR (stoch_props ArithR s StochVol x p V t))%R ->
+  forall ts V0 pos n st,
+  vrun s vm u n (vinit s ts V0 pos) = Done st ->
+  exists j : nat,
+    (vs_next_q st = sm_t0 s + INR (S j) * sm_dt s)%R /\
+    (sm_t0 s + INR j * sm_dt s <= vs_time st <= sm_t0 s + INR (S j) * sm_dt s)%R /\
+    vapps s vm u n (vinit s ts V0 pos) = (j + (if vs_rule_step st then 0 else 1))%nat.
+Proof. exact volume_dt_rules_once_per_step. Qed.
+
+(* Whole-run counting for the delay + volume loop (DelayVolumeSSASimulator as repaired by F23; reals; ANY network incl. rules and delay
+   laws, queue, volume model, grid, stream, fuel -- no hypothesis at all): with j volume steps taken (the next is due at t0 + (j+1) dt)
+   the iterations that started with rule_step set number j, plus one iff the pass for the step in progress has been made -- whatever
+   reactions fired, deliveries were made, or bare moves to a requested time happened in between (the defect F23 was such a move
+   setting rule_step). *)
+Theorem C09_delay_volume_dt_rules_once_per_step :
+  forall (s : sim R) (vm : volmodel) pi2 gfuel (u : nat -> R) q ts V0 pos fuel st,
+  dvssa_simulate ArithR pi2 fuel gfuel s vm V0 q ts u pos = Done st ->
+  exists n j : nat, dvrun s vm pi2 gfuel u n (dvinit s q ts V0 pos) = Done st /\
+    (dv_next_vol st = sm_t0 s + INR (S j) * sm_dt s)%R /\
+    dvapps s vm pi2 gfuel u n (dvinit s q ts V0 pos) = (j + (if dv_rule_step st then 0 else 1))%nat.
+Proof. exact delay_volume_run_dt_rules. Qed.
+Theorem C09_delay_volume_dt_rules_every_boundary :
+  forall (s : sim R) (vm : volmodel) pi2 gfuel (u : nat -> R) q ts V0 pos n st,
+  dvrun s vm pi2 gfuel u n (dvinit s q ts V0 pos) = Done st ->
+  exists j : nat, (dv_next_vol st = sm_t0 s + INR (S j) * sm_dt s)%R /\
+    dvapps s vm pi2 gfuel u n (dvinit s q ts V0 pos) = (j + (if dv_rule_step st then 0 else 1))%nat.
+Proof. exact delay_volume_dt_rules_every_boundary. Qed.
+
+(* "For plain and for lineage models alike": the single-cell lineage loop (coq/Model/Lineage.v; reals, 0 < eps7 (the 10e-8 of the
+   code), uniforms in (0,1], non-negative propensities; any lineage model -- rules, volume / division / death rules with their noise,
+   volume / division / death events -- and any grid t0 :: t1 :: _ with the cell's clock in [t0, t1]).  After n iterations none of
+   which stopped the cell or jumped to the final time, with the dt clock j ticks past its first value t1, the iterations that started
+   with rule_step set number j, plus one iff the pass for the step in progress has been made; and whatever iteration comes next --
+   firing, tick, division, death, the jump to the final time -- leaves exactly j + 1 behind. *)
+Theorem C09_lineage_dt_rules_once_per_step :
+  forall (l : lin R) pi2 eps9 eps7 t_init V_init (u : nat -> R),
+  (0 < eps7)%R -> (forall n, 0 < u n <= 1)%R -> (forall x p V t, 0 <= array_sum ArithR (lin_props ArithR l x p V t))%R ->
+  forall t0 t1 ts' t_cur V x0 pos n st, (t0 <= t_cur <= t1)%R ->
+  let ts := t0 :: t1 :: ts' in
+  let init := mkLst t_cur ts x0 (si_params (sm_if (ln_sim l))) true pos [] [] t1 V (-1)%Z (-1)%Z false in
+  lrun l pi2 eps9 eps7 (t1 - t0)%R (last ts t0) t_init V_init u n init = Done st ->
+  lplain l pi2 eps9 eps7 (t1 - t0)%R (last ts t0) t_init V_init u n init ->
+  exists j : nat,
+    (ls_next_q st = t1 + INR j * (t1 - t0))%R /\ (ls_next_q st - (t1 - t0) <= ls_time st <= ls_next_q st)%R /\
+    lapps l pi2 eps9 eps7 (t1 - t0)%R (last ts t0) t_init V_init u n init = (j + (if ls_rule_step st then 0 else 1))%nat.
+Proof. exact lineage_dt_rules_once_per_step. Qed.
+Theorem C09_lineage_dt_rules_next_iteration :
+  forall (l : lin R) pi2 eps9 eps7 t_init V_init (u : nat -> R),
+  (0 < eps7)%R -> (forall n, 0 < u n <= 1)%R -> (forall x p V t, 0 <= array_sum ArithR (lin_props ArithR l x p V t))%R ->
+  forall t0 t1 ts' t_cur V x0 pos n st, (t0 <= t_cur <= t1)%R ->
+  let ts := t0 :: t1 :: ts' in
+  let init := mkLst t_cur ts x0 (si_params (sm_if (ln_sim l))) true pos [] [] t1 V (-1)%Z (-1)%Z false in
+  lrun l pi2 eps9 eps7 (t1 - t0)%R (last ts t0) t_init V_init u n init = Done st ->
+  lplain l pi2 eps9 eps7 (t1 - t0)%R (last ts t0) t_init V_init u n init -> llive st = true ->
+  exists j : nat,
+    (ls_next_q st = t1 + INR j * (t1 - t0))%R /\
+    lapps l pi2 eps9 eps7 (t1 - t0)%R (last ts t0) t_init V_init u (S n) init = S j.
+Proof. exact lineage_dt_rules_next_iteration. Qed.
+
+(* Not mechanised (C09_partial): the counting statement for the deterministic post-pass, and the scheduled-rule
+   clause over whole runs -- decided by the stream replay and the harness oracle (counter, ODE and scheduled rules). *)
 
 Print Assumptions C09_eval_frame.
 Print Assumptions C09_assignment_fixpoint.
@@ -94,3 +184,10 @@ Print Assumptions C09_scheduled_rule_fires_at.
 Print Assumptions C09_dt_rules_once_per_row.
 Print Assumptions C09_delay_rows_are_rule_applied.
 Print Assumptions C09_volume_rows_are_rule_applied.
+Print Assumptions C09_delay_dt_rules_once_per_row.
+Print Assumptions C09_volume_dt_rules_once_per_step.
+Print Assumptions C09_volume_dt_rules_every_boundary.
+Print Assumptions C09_delay_volume_dt_rules_once_per_step.
+Print Assumptions C09_delay_volume_dt_rules_every_boundary.
+Print Assumptions C09_lineage_dt_rules_once_per_step.
+Print Assumptions C09_lineage_dt_rules_next_iteration.
